@@ -827,6 +827,9 @@ def rule_E10(prog):
         e = G.strip(m.expand(term, depth=4))
         if isinstance(e, tuple) and e and e[0] == "call" and isinstance(e[1], str) and e[1].endswith((PRE, SUF)):
             return True
+        # a length limited by `min` is at most the affix length: the items at that end are still pairwise equal
+        if isinstance(e, tuple) and e and e[0] == "call" and isinstance(e[1], str) and e[1].endswith("::min") and len(e[2]) == 2 and depth < 3:
+            return any(is_affix(fnx, a, depth + 1) for a in e[2])
         if depth >= 2:
             return False
         comp = None
